@@ -34,8 +34,9 @@ def B : String := "BaseSetup"
 
 /-- **SingleSetup.** `decimate_data` stores the decimated array, `fs/q`, `1/(fs/q)`, the new row count and the helper's
     duration `1/(fs/q)/q·Ndat` (the known finding: NOT `dt·Ndat`); `scipy.signal.decimate` receives `self.data` and `q`.
-    `detrend_data` / `filter_data` store only `data`: what `detrend(self.data, axis=…)` / `gen.filter_data(data=self.data,
-    fs=self.fs, Wn, order, btype)` returned — the CURRENT `fs` reaches the filter design. -/
+    `detrend_data` / `filter_data` store only `data`: what `detrend(self.data, axis=…, **kwargs)` / `gen.filter_data(data=self.data,
+    fs=self.fs, Wn, order, btype)` returned — the CURRENT `fs` reaches the filter design, and scipy receives no keyword
+    besides `axis` and the caller's own (no hard-wired `overwrite_data=True`). -/
 theorem C14_single_stores_from_source :
     tbl.storedExactly S "decimate_data"
       [("self.data", "signal.decimate[0]"), ("self.fs", "self.fs / q"), ("self.dt", "1 / (self.fs / q)"),
@@ -44,7 +45,8 @@ theorem C14_single_stores_from_source :
     ∧ tbl.arg S "decimate_data" "signal.decimate" "q" = some "q"
     ∧ (tbl.calls S "decimate_data" "signal.decimate").length = 1
     ∧ tbl.storedExactly S "detrend_data" [("self.data", "signal.detrend[0]")] = true
-    ∧ tbl.arg S "detrend_data" "signal.detrend" "data" = some "self.data"
+    ∧ tbl.bindsExactly S "detrend_data" "signal.detrend" [("data", "self.data"), ("axis", "kwargs.pop[0]"), ("**", "kwargs")] = true
+    ∧ tbl.bindsExactly S "decimate_data" "signal.decimate" [("x", "self.data"), ("q", "q"), ("**", "{'axis': kwargs.pop[0], **kwargs}")] = true
     ∧ (tbl.calls S "detrend_data" "signal.detrend").length = 1
     ∧ tbl.storedExactly S "filter_data" [("self.data", "gen.filter_data[0]")] = true
     ∧ tbl.bindsExactly S "filter_data" "gen.filter_data"
@@ -73,7 +75,7 @@ theorem C14_multi_stores_from_source :
         [("dataList", "[gen.filter_data[0] for data in self.datasets]"), ("reflist", "self.ref_ind")] = true
     ∧ tbl.storedExactly M "detrend_data"
         [("self.datasets", "[signal.detrend[0] for data in self.datasets]"), ("self.data", "gen.pre_multisetup[0]")] = true
-    ∧ tbl.arg M "detrend_data" "signal.detrend" "data" = some "data"
+    ∧ tbl.bindsExactly M "detrend_data" "signal.detrend" [("data", "data"), ("axis", "kwargs.pop[0]"), ("**", "kwargs")] = true
     ∧ tbl.bindsExactly M "detrend_data" "gen.pre_multisetup"
         [("dataList", "[signal.detrend[0] for data in self.datasets]"), ("reflist", "self.ref_ind")] = true
     ∧ ([("decimate_data", "signal.decimate"), ("filter_data", "gen.filter_data"), ("detrend_data", "signal.detrend")].all fun p =>
@@ -127,18 +129,18 @@ theorem C14_initial_copy_from_source :
     ∧ tbl.bindsExactly M "__init__" "copy.deepcopy" [("#0", "datasets")] 1 = true := by
   decide
 
-/-- **Clause 13, who may write.**  The only methods of the two setup classes (own or inherited from `BaseSetup`) that assign
-    or modify an attribute of the object are the constructor pair, `rollback`, the three preprocessing methods and
-    `add_algorithms` (which writes `algorithms` only) — no `plot_*`, `run_*`, `mpe*`, `get` does; and no walked method modifies
+/-- **Clause 13, who may write.**  The only entry points (public methods and `__init__`) of the two setup classes (own or
+    inherited from `BaseSetup`) that assign or modify an attribute of the object — directly or through a private helper —
+    are the constructor, `rollback`, the three preprocessing methods and `add_algorithms` (which writes `algorithms` only) — no `plot_*`, `run_*`, `mpe*`, `get` does; and no walked method modifies
     one of its arguments or an attribute of the object IN PLACE (`x[...] = …`, `x += …`, `x.sort()` …). -/
 theorem C14_writers_from_source :
-    sameSet (tbl.writers S) ["__init__", "_initialize_data", "rollback", "decimate_data", "detrend_data", "filter_data", "add_algorithms"] = true
-    ∧ sameSet (tbl.writers M) ["__init__", "_initialize_data", "rollback", "decimate_data", "detrend_data", "filter_data", "add_algorithms"] = true
+    sameSet (tbl.writers S) ["__init__", "rollback", "decimate_data", "detrend_data", "filter_data", "add_algorithms"] = true
+    ∧ sameSet (tbl.writers M) ["__init__", "rollback", "decimate_data", "detrend_data", "filter_data", "add_algorithms"] = true
     ∧ (tbl.method B "add_algorithms").map (·.writes) = some ["algorithms"]
     ∧ (tbl.methods.all fun m => m.inplace.isEmpty) = true
     ∧ ([S, M].all fun c => ["add_algorithms", "run_by_name", "run_all", "mpe", "mpe_from_plot", "__getitem__"].all fun m =>
         tbl.resolve c m == some B) = true
-    ∧ ([S, M].all fun c => ["__init__", "_initialize_data", "rollback", "decimate_data", "detrend_data", "filter_data"].all fun m =>
+    ∧ ([S, M].all fun c => ["__init__", "rollback", "decimate_data", "detrend_data", "filter_data"].all fun m =>
         tbl.resolve c m == some c) = true := by
   decide
 
